@@ -23,5 +23,17 @@ def run(tier, seed, t0, only=None):
                bounds='%d cases = multisets of <= %d instances of class K in every order; all value bits symbolic' % (len(cs), 2 if tier == 'quick' else 3), cases=cs, budget=600)]
     if only:
         gs = [g for g in gs if any(g['id'].startswith(o) for o in only)]
-    obs = binrun.run(gs, ('C08',), module=sercheck)
+    obs = binrun.run(gs, ('C08',), module=sercheck) if gs else []
+    # reader side of "never another instance's value": columns whose per-instance encoding has optional / variable parts, from the
+    # spec encoder (same obligation as C04 M9.prop, 3 instances so that a value carried over between loop iterations shows)
+    from ..mirsym import bincheck
+    from . import bingroups
+    rk = ['Font', 'String', 'PhysicalProperties', 'NumberSequence', 'ColorSequence', 'CFrame']
+    rg = [dict(id='M11.reader', desc='reading a column whose values have optional or variable-length parts: every instance gets exactly its own value (nothing carried over from the previous instance of the column)',
+               bounds='3 instances per column, kinds %s, all value bits symbolic' % ', '.join(rk),
+               cases=[dict(what='prop', kind=k, n=3, opts=dict(bingroups.KIND_OPTS3.get(k, {}), **({'rot': [2, 0, 5]} if k == 'CFrame' else {}))) for k in rk], budget=600)]
+    if only:
+        rg = [g for g in rg if any(g['id'].startswith(o) for o in only)]
+    if rg:
+        obs += binrun.run(rg, ('C04', 'C08'), module=bincheck)
     return C.finish('C08', tier, seed, obs, t0, ASSUMPTIONS, TRUSTED, RULE)
